@@ -934,7 +934,8 @@ func (s *StoreSim) ScaleProbe(seed uint64, idx int, thorough bool) (*Violation, 
 			return c
 		}},
 	}
-	points := make([][]scalePoint, len(damage)+1)
+	points := make([][]scalePoint, len(damage)+2)
+	inputs := make([][][]byte, len(damage)+2)
 	for _, n := range sizes {
 		r := engine.PRNG{S: engine.Mix(seed, 0x5CA1E, uint64(idx), uint64(n))}
 		v := world.Gen(ti.T, &r, world.GenOpts{Size: 8, Fanout: n, ZeroPct: 20})
@@ -951,27 +952,35 @@ func (s *StoreSim) ScaleProbe(seed uint64, idx int, thorough bool) (*Violation, 
 		if ti.T.Kind() == reflect.Struct {
 			tv := world.Gen(ti.T, &r, world.GenOpts{Size: 6, Fanout: 1, ZeroPct: 10})
 			if tb, terr, tpan := soloMarshal(cfg, tv.Addr().Interface()); tpan == "" && terr == "" && len(tb) > 0 && len(tb) < 4096 {
-				for len(tail) < len(rec) {
+				for len(tail) < 3*len(rec) {
 					tail = append(tail, tb...)
 				}
 			}
 			InstallStoreHooks()
 		}
-		for di := 0; di <= len(damage); di++ {
+		for di := 0; di <= len(damage)+1; di++ {
 			var d struct {
 				name string
 				f    func(b []byte) []byte
 			}
 			if di < len(damage) {
 				d = damage[di]
-			} else if tail != nil {
+			} else if di == len(damage) && tail != nil {
 				d.name, d.f = "followed by many tiny records", func(b []byte) []byte { return append(append([]byte(nil), b...), tail...) }
+			} else if di == len(damage)+1 {
+				// a writer whose every inner container claims n/2 more elements than it wrote, plus padding
+				d.name, d.f = "every inner count inflated", func(b []byte) []byte { return InflateInnerCounts(b, n/2) }
 			} else {
 				continue
 			}
 			input := d.f(rec)
 			c := &StoreCase{Type: tn, Reader: tn, Mode: "unmarshal", Cfg: cfg, Fault: fmt.Sprintf("scale probe: %d elements, %s", n, d.name), Scale: &ScaleCase{Seed: seed, Index: idx, N: n, Damage: di}}
 			s.St.ByFault["scale_"+strings.ReplaceAll(d.name, " ", "_")]++
+			s.curCase = c
+			if s.CaseFile != "" {
+				cb, _ := json.Marshal(c)
+				os.WriteFile(s.CaseFile, cb, 0o644)
+			}
 			best := int64(1 << 62)
 			var alloc uint64
 			lastSteps := 0
@@ -987,6 +996,13 @@ func (s *StoreSim) ScaleProbe(seed uint64, idx int, thorough bool) (*Violation, 
 				if res.panicked != "" {
 					return violStore("panic", res.site, fmt.Sprintf("panic: %s at %s (%s)", res.panicked, res.site, c.Fault), c), c
 				}
+				// Every decode step starts an item that occupies at least one input byte
+				// (a map entry adds two more): a decoder that stays linear takes at most
+				// about 3 steps per byte. On large inputs more than 4 means the work no
+				// longer follows the input.
+				if len(input) >= 16<<10 && res.steps > 64+4*len(input) {
+					return violStore("slow", "", fmt.Sprintf("decode of a %d-byte input took %d decode steps, more than 4 per input byte (%s)", len(input), res.steps, c.Fault), c), c
+				}
 				bound := uint64(allocBase + rd.k*len(input))
 				if res.alloc > bound {
 					return violStore("blowup", "", fmt.Sprintf("decoding a %d-byte input (%s) allocated %d bytes (allowance %d)", len(input), c.Fault, res.alloc, bound), c), c
@@ -998,6 +1014,12 @@ func (s *StoreSim) ScaleProbe(seed uint64, idx int, thorough bool) (*Violation, 
 				lastSteps = res.steps
 			}
 			points[di] = append(points[di], scalePoint{n: n, size: len(input), nanos: best, alloc: alloc, steps: lastSteps})
+			if len(inputs[di]) == 0 || n == sizes[len(sizes)-1] {
+				inputs[di] = append(inputs[di], input) // the two ends, for re-measurement
+			}
+			if os.Getenv("VERIF_DEBUG_SCALE") != "" {
+				fmt.Fprintf(os.Stderr, "scale %s cfg=%v n=%d %q size=%d steps=%d alloc=%d ns=%d\n", tn, cfg, n, d.name, len(input), lastSteps, alloc, best)
+			}
 		}
 	}
 	// growth: cost per decode step (how far a damaged decode gets is not
@@ -1018,13 +1040,21 @@ func (s *StoreSim) ScaleProbe(seed uint64, idx int, thorough bool) (*Violation, 
 		dname := "followed by many tiny records"
 		if di < len(damage) {
 			dname = damage[di].name
+		} else if di == len(damage)+1 {
+			dname = "every inner count inflated"
 		}
 		c := &StoreCase{Type: tn, Reader: tn, Mode: "unmarshal", Cfg: cfg, Fault: "scale probe: " + dname, Scale: &ScaleCase{Seed: seed, Index: idx, N: b.n, Damage: di}}
 		if mb > 8*ma && b.alloc > 4<<20 {
 			return violStore("blowup", "", fmt.Sprintf("allocation per decode step grows with the input: %d bytes over %d steps for a %d-byte input but %d bytes over %d steps for a %d-byte input (%s)", a.alloc, a.steps, a.size, b.alloc, b.steps, b.size, dname), c), c
 		}
-		if tb > 6*ta && b.nanos > 20e6 {
+		if tb > 3.5*ta && b.nanos > 20e6 {
+			// suspect: measure both ends again, best of five each, before believing the clock
 			s.St.AllocSuspects++
+			a2, b2 := s.remeasure(rd, cfg, inputs[di][0], 5), s.remeasure(rd, cfg, inputs[di][len(inputs[di])-1], 5)
+			if a2 <= 0 || b2 <= 0 || float64(b2)/float64(b.steps) <= 3.5*float64(a2)/float64(a.steps) {
+				continue
+			}
+			a.nanos, b.nanos = a2, b2
 			return violStore("slow", "", fmt.Sprintf("decode time per step grows with the input: %d ns over %d steps for %d bytes but %d ns over %d steps for %d bytes (%s)", a.nanos, a.steps, a.size, b.nanos, b.steps, b.size, dname), c), c
 		}
 	}
@@ -1032,6 +1062,24 @@ func (s *StoreSim) ScaleProbe(seed uint64, idx int, thorough bool) (*Violation, 
 }
 
 func nanotime() int64 { return time.Now().UnixNano() }
+
+// remeasure decodes input reps times and returns the best wall time.
+func (s *StoreSim) remeasure(rd *storeReader, cfg world.InstCfg, input []byte, reps int) int64 {
+	best := int64(-1)
+	for i := 0; i < reps; i++ {
+		buf := present(input, nil, "exact")
+		t0 := nanotime()
+		res := s.decodeOnce(s.inst(cfg), rd, buf, false)
+		dt := nanotime() - t0
+		if res.panicked != "" || res.hang {
+			return -1
+		}
+		if best < 0 || dt < best {
+			best = dt
+		}
+	}
+	return best
+}
 
 // ---------------------------------------------------------------------------
 // replay and minimisation
